@@ -207,7 +207,26 @@ impl<'a, P: ?Sized + PathImpl> PathMutImpl<'a, P> {
 	#[inline]
 	pub fn normalize(&mut self) {
 		let mut buffer: SmallVec<[u8; NORMALIZE_IN_PLACE_BUFFER_LEN]> = SmallVec::new();
-		for (i, segment) in self.normalized_segments().enumerate() {
+		let relative = self.is_relative();
+		let mut segments = self.normalized_segments().peekable();
+		let len = segments.len();
+
+		if let Some(first) = segments.peek() {
+			let first = first.as_bytes();
+			// AMBIGUITY: An empty first segment would turn a relative path
+			//            into an absolute one, be read as the start of an
+			//            authority, or disappear if it is the only segment.
+			//            A colon in the first segment of a relative path at
+			//            the start would be read as a scheme delimiter.
+			// SOLUTION:  We add a `.` segment in front of it.
+			if (first.is_empty() && (relative || !self.follows_authority || len == 1))
+				|| (relative && self.start == 0 && parse::first_segment_contains_colon(first))
+			{
+				buffer.extend_from_slice(b"./")
+			}
+		}
+
+		for (i, segment) in segments.enumerate() {
 			if i > 0 {
 				buffer.push(b'/')
 			}
